@@ -252,3 +252,17 @@ Proof. intros Hab Hv. repeat split.
  - apply xmul_fin_eq. apply ce_gen_spec; [apply lifts_phi_rect | apply lifts_phip_rect].
  - apply xmul_fin_eq. apply ch_gen_spec; [apply lifts_phi_rect | apply lifts_phip_rect | auto |].
    exact (subgradient_respects _ _ (qphi_rect_subgradient a b Hab)). Qed.
+
+(* two half-lines sum to the unweighted score *)
+Lemma tw_partition_halflines L b U alpha v f o : 0 <= v -> L <= f -> L <= o -> f <= U -> o <= U -> L <= b -> b <= U ->
+  q_tw_sq_rect L b f o + q_tw_sq_rect b U f o == q_sq_err f o /\
+  q_tw_abs_rect L b f o + q_tw_abs_rect b U f o == q_abs_err f o /\
+  q_tw_quantile_rect L b alpha f o + q_tw_quantile_rect b U alpha f o == q_pinball alpha f o /\
+  q_tw_expectile_rect L b alpha f o + q_tw_expectile_rect b U alpha f o == q_asym_sq alpha f o /\
+  q_tw_huber_rect L b v f o + q_tw_huber_rect b U v f o == q_huber v f o.
+Proof. intros. repeat split.
+ - rewrite tw_partition_rect_sq by auto. apply tw_weight_one_sq; auto.
+ - rewrite tw_partition_rect_abs by auto. apply tw_weight_one_abs; auto.
+ - rewrite tw_partition_rect_quantile by auto. apply tw_weight_one_quantile; auto.
+ - rewrite tw_partition_rect_expectile by auto. apply tw_weight_one_expectile; auto.
+ - rewrite tw_partition_rect_huber by auto. apply tw_weight_one_huber; auto. Qed.
